@@ -586,10 +586,12 @@ func parseJSONLine(line string) ([]jmember, error) {
 	return ms, nil
 }
 
+// jsonString spells a JSON string; backslashes as \u005C (csvq cannot load a
+// string that ends in "\\", finding json_trailing_backslash_unloadable).
 func jsonString(s string) string {
 	b, _ := json.Marshal(s)
 	// encoding/json escapes <, >, & as \u00XX: still valid JSON
-	return string(b)
+	return strings.ReplaceAll(string(b), `\\`, `\u005C`)
 }
 
 func writeJSONObject(header []string, r []cell) string {
